@@ -244,3 +244,26 @@ def headeronly_section(rng, path, kind):
         mo, mn = "100644", "100755"
     text = emit.emit_git(path, newpath, [], kind=("change" if kind == "mode" else kind), old_mode=mo, new_mode=mn)
     return dict(path=path, newpath=newpath, a=a, b=a, text=text, fmt="git", kind=kind, hs=[], ops=[(" ", l) for l in a], mode_old=mo, mode_new=mn, w=0)
+
+
+def dir_stream_scenario(rng, opts=None):
+    """one git stream that fills a directory and empties it: a file added to / renamed into a directory, and the removal (or the
+    renaming away) of the only file that directory holds so far, in either order"""
+    d_ = rng.choice(["nd", "nd/deep"])
+    how = rng.choice(["add+delete", "add+delete", "add+rename-out", "rename-in+delete"])
+    sx = section(rng, "other", kind="change", fmt="git", nonl=False)
+    if how == "add+delete":
+        sa = section(rng, d_ + "/new.txt", kind="add", fmt="git")
+        sb = section(rng, d_ + "/old.txt", kind="delete", fmt="git")
+    elif how == "add+rename-out":
+        sa = section(rng, d_ + "/new.txt", kind="add", fmt="git")
+        sb = section(rng, d_ + "/old.txt", kind="rename", fmt="git")
+        sb["text"] = sb["text"].replace(sb["newpath"].encode(), b"elsewhere/old.txt"); sb["newpath"] = "elsewhere/old.txt"
+    else:
+        sa = section(rng, "outside.txt", kind="rename", fmt="git")
+        sa["text"] = sa["text"].replace(sa["newpath"].encode(), (d_ + "/moved.txt").encode()); sa["newpath"] = d_ + "/moved.txt"
+        sb = section(rng, d_ + "/old.txt", kind="delete", fmt="git")
+    order = rng.choice([[sa, sb], [sb, sa], [sa, sx, sb], [sx, sb, sa]])
+    s = base_scenario(rng, order, opts=dict(opts or {}))
+    s["how"] = how
+    return s
